@@ -65,6 +65,9 @@ func (c *Ctx) Confine(sp confineSpec) *confineResult {
 				continue
 			}
 			next[caller] = fn
+			if sp.exportedAreRoots && isExportedAPI(caller) {
+				continue // an exported entry point is a root already: its callers are arbitrary user code
+			}
 			q = append(q, caller)
 		}
 	}
